@@ -261,6 +261,7 @@ type mctx struct {
 	loopState []string        // inside the body of a general range loop: the variables it threads (nil outside)
 	retType   string          // Lean type of the method's results
 	resTypes  []string        // Lean types of the results, one by one
+	outParams []string        // map parameters the body stores into: Go mutates the caller\'s map, here the new map is an extra result
 	panics    bool            // the body contains `panic(…)`: results are `Option …`, `none` = it panicked
 }
 
@@ -1251,6 +1252,7 @@ func (m *mctx) stmts(list []ast.Stmt, tail func() string, ind string) string {
 			if len(x.Results) == 0 {
 				vals = append([]string{}, m.results...)
 			}
+			vals = append(vals, m.outParams...)
 			if m.pure && m.loopState == nil && !m.retOpt {
 				b.WriteString(ind + tuple(vals) + "\n")
 				return b.String()
@@ -2287,6 +2289,25 @@ func (g *goTranslator) method(fd *ast.FuncDecl) (mo *methodOut, err error) {
 			}
 		}
 	}
+	// a map parameter the body stores into: the caller sees the stores in Go; here the map after the call is an extra result
+	{
+		vars, _ := m.assigned(fd.Body.List)
+		isVar := map[string]bool{}
+		for _, v := range vars {
+			isVar[v] = true
+		}
+		for _, f := range fd.Type.Params.List {
+			if _, isMap := g.info.Types[f.Type].Type.Underlying().(*types.Map); !isMap {
+				continue
+			}
+			for _, n := range f.Names {
+				if isVar[leanIdent(n.Name)] {
+					m.outParams = append(m.outParams, leanIdent(n.Name))
+					resT = append(resT, g.leanType(g.info.Types[f.Type].Type))
+				}
+			}
+		}
+	}
 	m.nres = len(resT)
 	ret := "Unit"
 	if len(resT) > 0 {
@@ -2308,9 +2329,9 @@ func (g *goTranslator) method(fd *ast.FuncDecl) (mo *methodOut, err error) {
 			bad("control reaches the end of a function with unnamed results")
 		}
 		if m.panics {
-			return "(some " + atomOf(tuple(m.results)) + ", " + w + ")"
+			return "(some " + atomOf(tuple(append(append([]string{}, m.results...), m.outParams...))) + ", " + w + ")"
 		}
-		return "(" + tuple(m.results) + ", " + w + ")"
+		return "(" + tuple(append(append([]string{}, m.results...), m.outParams...)) + ", " + w + ")"
 	}
 	body := m.stmts(fd.Body.List, tail, "  ")
 	var b strings.Builder
